@@ -223,9 +223,45 @@ def r4(ctx):
     ctx.floor(rule, n, "C20.R4.pairs")
 
 
+def r6(ctx):
+    import re
+    rule = "C20.R6"
+    ctx.rule(rule, "adapter symmetry: the local constraint adapters that BasicWriter::write_K and BasicReader::read_K of rw/der.rs "
+                   "declare to reuse the INTEGER codec (IntegerConstraint<IC>) define every associated constant from the same "
+                   "expression on both sides (TAG forwards the type's own tag, MIN / MAX / EXTENSIBLE agree)")
+    P = ctx.program()
+    side = {"w": {}, "r": {}}
+    for k, b in P.bodies.items():
+        if b.def_kind != "AssocConst" or "rw::der::" not in k:
+            continue
+        m = re.search(r"rw::der::Basic(Writer|Reader)<\w+> as descriptor::(?:Writer|Reader)>::(?:write|read)_(\w+)::(\w+)<.*> as ([\w:]+)(?:<.*>)?>::(\w+)$", k)
+        if not m:
+            continue
+        O = X.Origins(b, P)
+        vals = sorted(F.rd(O.rvalue(d[3], d[0], d[1], 0)) if d[2] == "assign" else "call " + str(d[3].callee) for d in b.defs.get(0, ()))
+        side["w" if m.group(1) == "Writer" else "r"][(m.group(2), m.group(3), m.group(4).split("::")[-2] if "::" in m.group(4) else m.group(4), m.group(5))] = (vals, "%s:%d" % (b.file, b.line))
+    n = 0
+    for key in sorted(set(side["w"]) | set(side["r"])):
+        w, r = side["w"].get(key), side["r"].get(key)
+        name = "%s::%s<%s>::%s" % key
+        detail = {"kind": key[0], "adapter": key[1], "trait": key[2], "constant": key[3], "writer": w and w[0], "reader": r and r[0]}
+        if w is None or r is None:
+            # a constant that only one side needs to override is compared with the trait default by rustc; nothing to pair
+            ctx.ok(rule, name, dict(detail, note="declared on one side only"), nontrivial=False)
+            continue
+        n += 1
+        if w[0] != r[0]:
+            ctx.fail(rule, name, "the %s adapter of write_%s defines %s as %s, the one of read_%s as %s: what the writer emits is not what the "
+                                 "reader expects" % (key[1], key[0], key[3], w[0], key[0], r[0]), w[1], detail)
+        else:
+            ctx.ok(rule, name, detail)
+    ctx.floor(rule, n, "C20.R6.paired_constants")
+
+
 def run(ctx):
     with open(os.path.join(VERIF, "tables", "x690.json")) as fh:
         table = json.load(fh)
     r1(ctx, table)
     r2_r3_r5(ctx, table)
     r4(ctx)
+    r6(ctx)
